@@ -1462,6 +1462,28 @@ func (d *Data) moveElementInLabels(ctx *datastore.VersionedCtx, batch storage.Ba
 		return err
 	}
 	if oldLabel == newLabel {
+		if oldLabel == 0 {
+			return nil
+		}
+		// The element stays in the same body: no count changes, but its position in that
+		// body's element list has to follow the move.
+		tk := NewLabelTKey(oldLabel)
+		elems, err := getElementsNR(ctx, tk)
+		if err != nil {
+			return fmt.Errorf("err getting elements for label %d: %v", oldLabel, err)
+		}
+		var changed bool
+		for i := range elems {
+			if from.Equals(elems[i].Pos) {
+				elems[i].Pos = to
+				changed = true
+			}
+		}
+		if changed {
+			if err := putBatchElements(batch, tk, elems); err != nil {
+				return fmt.Errorf("err putting moved label %d element: %v", oldLabel, err)
+			}
+		}
 		return nil
 	}
 
